@@ -18,6 +18,7 @@ import Mahotas.Proofs.C15Euler
 import Mahotas.Proofs.C15Cell
 import Mahotas.Proofs.C15Count
 import Mahotas.Proofs.C15Flood
+import Mahotas.Proofs.C15Row
 import Mahotas.Proofs.C15FloodPx
 open Mahotas Mahotas.C15
 
@@ -718,3 +719,55 @@ example :
     let b := C15.Bin.ofInts 5 5 [0,0,0,0,0, 0,1,1,1,0, 0,1,1,1,0, 0,1,1,1,0, 0,0,0,0,0]
     (C15.thinCore b 0).data = b.data ∧ (C15.thinCore b 1).data ≠ b.data ∧
     (C15.thinCore b 2).data = (C15.thinLoop 1 (C15.thinCore b 1)).data := by decide
+
+
+/-! ## Round 4 — Gray's identity for an unbounded family: every one-row image -/
+
+/-- **C15 (`euler`: Gray's identity, every image of height 1).** For every image with one row — any width, any
+number of runs, runs touching either end — and both connectivity conventions, the bit-quad sum of the model (generated
+look-up tables, padded windows) is four times `components − holes` as counted by the flood-fill oracle:
+`eulerModel4 b c = 4 · eulerSpec b c`. Bit-quad side: a one-row image is a product image, its window weight factors into
+(row transition) × (column transition) (`qw_prod`), the row indicator has two transitions and the number of value changes along
+the row is twice the number of runs (telescoping sum). Graph side (`C15_eulerSpec_count`): in one row the edges join horizontal
+neighbours only, the smallest pixel of a component is exactly a run start (`minimal_iff_one_row`), and every background pixel
+is a border pixel, so there are no holes. (First instance of the identity for a family with arbitrarily many components;
+heights ≥ 2 remain validated only — there holes appear and the argument needs the Euler–Poincaré step.) -/
+theorem C15_euler_gray_one_row (b : C15.Bin) (c : Bool) (h1 : b.rows = 1) :
+    C15.eulerModel4 b c = 4 * C15.eulerSpec b c := by
+  obtain ⟨comps, inner, hc, _, hspec, hcm, him⟩ := C15_eulerSpec_count b c
+  rw [C15.eulerModel4_one_row b c h1, hspec]
+  have hinner : inner = [] := by
+    cases inner with
+    | nil => rfl
+    | cons s t =>
+      have hs := (him s).1 (List.mem_cons_self)
+      have hlt : s < b.cols := by have := hs.1.1.1; rw [h1] at this; omega
+      exact absurd ⟨s, Relation.ReflTransGen.refl, by rw [h1]; exact C15.bdr_one_row hlt⟩ hs.2
+  have hlen : (comps.length : Int) =
+      ∑ k ∈ Finset.range b.cols, if (C15.mk b.data k = true ∧ (k = 0 ∨ C15.mk b.data (k - 1) = false)) then 1 else 0 := by
+    apply C15.length_eq_sum_indicator comps hc b.cols
+    intro i
+    rw [hcm i]
+    constructor
+    · rintro ⟨hv, hmin⟩
+      have hv1 : C15.IsV 1 b.cols b.data i := by rw [← h1]; exact hv
+      have := (C15.minimal_iff_one_row b.cols b.data c i hv1).1 (by rw [← h1]; exact hmin)
+      exact ⟨by have := hv1.1; omega, hv1.2, this⟩
+    · rintro ⟨hi, hm, hl⟩
+      have hv1 : C15.IsV 1 b.cols b.data i := ⟨by omega, hm⟩
+      refine ⟨by rw [h1]; exact hv1, ?_⟩
+      rw [h1]
+      exact (C15.minimal_iff_one_row b.cols b.data c i hv1).2 hl
+  rw [hinner, hlen]
+  simp only [List.length_nil, Int.natCast_zero, Int.sub_zero]
+  congr 1
+  apply Finset.sum_congr rfl
+  intro k hk
+  exact C15.up_one_row b h1 k (Finset.mem_range.mp hk)
+
+/-! non-vacuity: `1 0 1 1 0 1` has three runs: sum 12, three components, no hole — and the theorem applies to it -/
+example :
+    let b := C15.Bin.ofInts 1 6 [1, 0, 1, 1, 0, 1]
+    C15.eulerModel4 b true = 12 ∧ C15.eulerSpec b true = 3 ∧ C15.eulerModel4 b false = 4 * C15.eulerSpec b false := by
+  intro b
+  exact ⟨by decide +kernel, by decide +kernel, C15_euler_gray_one_row b false rfl⟩
